@@ -4,7 +4,11 @@
 use crate::refm::*;
 use crate::rng::Rng;
 
+#[cfg(not(miri))]
 pub const BOUNDARY_LENS: [usize; 12] = [0, 1, 2, 127, 128, 129, 255, 256, 16_383, 16_384, 65_534, 65_535];
+/// Under Miri (four orders of magnitude slower) the long-field classes are left to the native layers.
+#[cfg(miri)]
+pub const BOUNDARY_LENS: [usize; 12] = [0, 1, 2, 127, 128, 129, 255, 256, 3, 130, 200, 300];
 
 const CP2: [char; 4] = ['é', 'ß', 'Ж', '¢'];
 const CP3: [char; 4] = ['€', '中', '\u{FEFF}', '\u{FFFD}'];
@@ -272,7 +276,7 @@ pub fn gen_rp(r: &mut Rng, fam: Fam, typ: u8, big: bool) -> RP {
             let qos = r.below(3) as u8;
             let props = pr(r, 3);
             let payload = if big && r.bool() {
-                let n = *r.pick(&[127usize, 128, 16_383, 16_384, 70_000]);
+                let n = if cfg!(miri) { *r.pick(&[127usize, 128, 200]) } else { *r.pick(&[127usize, 128, 16_383, 16_384, 70_000]) };
                 r.bytes(n)
             } else {
                 binary(r, false)
